@@ -51,10 +51,10 @@ def obligations(tier):
                      desc="6 add-chunk calls: all accepted, order preserved, count<=capacity, reallocations <= ceil(log2 n)+1", bounds="6 insertions"))
     for kind, nm in ((1, "array_push"), (2, "map_add"), (3, "bytestring_add_chunk"), (4, "string_add_chunk")):
         o.append(Obl("growth_lemma_%s_any_capacity" % nm, "h_cont.c", {"M_GROWLEMMA": 1, "KIND": kind}, unwind=4, unwindset=["_cbor_highest_bit.0:66"], timeout=600, funcs=F,
-                     desc="one insertion into a FULL indefinite container whose capacity is ANY size_t, allocator records and refuses: exactly one request of elem x (1 | 2 x old) bytes in 128-bit arithmetic, or none when that could overflow; "
+                     desc="one insertion into a FULL indefinite container whose capacity is ANY size_t, allocator records and refuses: at most one request, for a whole number of elements, strictly more than the old capacity and at least 1.5 x it, or none when the size computation could overflow; "
                           "failure reported; metadata and reference counts unchanged", bounds="all 2^64 capacities"))
     o.append(Obl("growth_count_16_pushes", "h_cont.c", {"M_GROWCOUNT": 1}, unwind=18, timeout=600, leak=True, funcs=F,
-                 desc="16 pushes: capacities 1,2,4,8,16, exactly 5 reallocations", bounds="16 insertions"))
+                 desc="16 pushes: capacity never shrinks, grows geometrically, at most 8 reallocations", bounds="16 insertions"))
     return o
 
 
